@@ -18,6 +18,84 @@ CLAIMED = {
              "(generated times are dyadic so it is). Termination of user callbacks that re-insert forever is not claimed (fuel).",
         technique="Lean 4 proof (induction over the event loop) + trace-equality correspondence with the real class",
         design='6/C20'),
+    'C03': dict(
+        text=("Lean theorems (HcipyVerif.Fraunhofer): the lens propagator's result equals 1/(i*lambda*f) times the weighted Fourier sum on "
+              "the focal grid scaled by 2*pi/(lambda*f) (any dimension, tensor component, wavelength-dependent focal length), power "
+              "conservation (also Stokes power of Jones-matrix wavefronts) and backward∘forward = id on the full conjugate grid with the weight "
+              "change proved, wavelength/Stokes carried. The Fourier transform enters through named hypotheses (EvaluatesFourierSum, ParsevalOn, "
+              "InverseOn) that C01/C02's theorems are about. Tie: model reproduces both focal-grid constructors and impulse responses in exact "
+              "turns; oracle compares the real FraunhoferPropagator with the direct weighted sum at every focal point."),
+        note=TRUST + " The FFT/MFT kernels are assumed to evaluate the defining sum (that is property C01); rounding is bounded only by the 1e-9 tolerance.",
+        technique="Lean 4 proof (algebra over ℂ, abstract Fourier hypotheses) + correspondence and direct-sum oracle on the real propagator",
+        design='6/C03'),
+    'C04': dict(
+        text=("Lean theorems (HcipyVerif.NearField) for the FourierFilter operator P†F⁻¹DFP over any FourierPair: linearity, backward = exact adjoint, "
+              "power non-increase when |D|<=1 (incl. sub-pixel averaged Fresnel transfer functions and propagating angular spectrum), D(-z)=conj D(z), and for "
+              "no padding/oversampling unitarity, backward inverts forward, additivity in z. Old angular-spectrum behaviour kept with proved counterexamples "
+              "(evanescent growth). Tie: regime/branch bookkeeping, transfer-function phases in exact turns, end-to-end pad→fft→D→ifft→crop comparison with the real propagators."),
+        note=TRUST + " The DFT's inverse/adjoint laws are hypotheses of the FourierPair structure (instantiated in examples; proved for the DFT in C02). Impulse-response accuracy is not claimed.",
+        technique="Lean 4 proof (finite-dimensional linear algebra over ℂ) + correspondence and numeric oracle on real Fresnel/angular-spectrum propagators",
+        design='6/C04'),
+    'C05': dict(
+        text=("Lean theorems (HcipyVerif.Cache) about the model of AgnosticOpticalElement's instance cache as repaired: soundness and accounting invariants for every "
+              "reachable state, no KeyError from eviction, FIFO eviction of the oldest instance, and transparency at full strength — every request in every history "
+              "(forward/backward/both grids, beyond any cache size, clear_cache and setters interleaved) returns the instance a fresh element would build; setter takes effect; "
+              "Fourier-object memo/scratch-buffer transparency. Old lookup kept with the proved lens-propagator counterexample. Tie: after every step of random histories on all 24 "
+              "agnostic classes the real ordered cache, counters and handed-out instance are compared with the model; oracle compares every result with a freshly built element."),
+        note=TRUST + " Hash collisions of xxhash and the float formula of the wavelength key are not modelled (distinct keys for wavelengths >= 1e-6 apart are exercised). Elements' declared grid/wavelength dependence is assumed truthful (checked by the fresh-element oracle).",
+        technique="Lean 4 proof (invariants by induction over request histories) + state-by-state correspondence with the real cache + fresh-element oracle",
+        design='6/C05'),
+    'C06': dict(
+        text=("Lean theorems: every term of the linear-operator IR denotes a (conjugate-)linear map by structural induction over any commutative ring with involution; the static effect checker is sound "
+              "(accepted programs leave the input wavefront and its attributes untouched and are repeatable); all 26 shipped effect programs are accepted (decide). Tie: for 86 registry entries covering all 63 concrete "
+              "OpticalElement classes the harness observes result identity/aliasing/attribute writes with a tracing Wavefront and compares with the effect model, evaluates the IR term exactly at Gaussian rationals against forward/backward, "
+              "and checks linearity, input snapshots and repeatability directly."),
+        note=TRUST + " The IR terms and effect programs per element family are hand-written abstractions; their fidelity rests on the correspondence. State kept inside elements (caches, mirror surfaces) is covered by history_independent_partial plus the harness clauses and C05.",
+        technique="Lean 4 proof (structural induction over an operator IR and an effect IR) + correspondence/oracle over a registry of every shipped element",
+        design='6/C06'),
+    'C07': dict(
+        text=("Lean theorems over ℝ/ℂ: unimodular multipliers preserve per-pixel and total power and are inverted by their conjugates (scalar, vector, tensor wavefronts); the exponent coefficients of 7 phase-only families, "
+              "REGENERATED from the running code on every run, satisfy backward = -forward and equal the model formula; magnifier conserves per-pixel power for either sign per axis; masks, polarisers, diagonal filters with |D|<=1 "
+              "between unitary transforms (knife edge), cropping and fibre injection (Cauchy–Schwarz) are passive. Oracle: per-pixel/total power and backward∘forward on the real elements."),
+        note=TRUST + " Tie T2: black-box identification of forward/backward phase coefficients writes Gen/PhaseCoef.lean before the build. Knife-edge and fibre elements raise on polarised wavefronts (open known findings).",
+        technique="Lean 4 proof (complex algebra) over definitions regenerated from the code + numeric power oracle on the real elements",
+        design='6/C07'),
+    'C08': dict(
+        text=("Lean theorems over ℝ/ℂ about polynomials REGENERATED from the running code on every run (I/Q/U/V formulas, the 16 quadratic forms of jones_to_mueller, retarder/polariser/beam-splitter matrices): each Stokes formula equals the Stokes parameter of the coherency matrix J·C(S)·Jᴴ; "
+              "Mueller matrix = Re(U(J⊗J̄)Uᴴ) and stokes(J·E) = M·stokes(E) for scalar, Jones-vector and Jones-matrix wavefronts; degree/angle of polarisation consistent; retarders unitary with backward = adjoint = inverse; polariser idempotent, Hermitian, Malus; beam-splitter ports add to the input intensity."),
+        note=TRUST + " Tie T2: coefficients are identified on integer lattice points, rounded to the ½-lattice and verified on fresh points; a changed coefficient breaks the proof and the numeric oracle (numpy coherency matrices vs the real code) searches the failing input.",
+        technique="Lean 4 proof (ring/field identities over ℂ) over definitions regenerated from the code by exact polynomial identification",
+        design='6/C08'),
+    'C12': dict(
+        text=("Lean theorems (Rat, every axis list and parameter): the separated-grid fast path of every generic aperture maker, as the code writes it (broadcast, bounding slices, masked assignment, x-fastest ravel), yields at flat index iy·Nx+ix exactly the point predicate at (x[ix],y[iy]) — "
+              "representation independence as an index theorem by induction over shape trees; bounding boxes sound; segmented assignment writes exactly the segment's pixels; values in [0,1], supersampled means in [0,1]; result attached to the requested grid. Oracle: the same physical points as regular/separated/unstructured/polar grids for all generic makers and telescope pupils."),
+        note=TRUST + " Points closer than 1e-7·scale to a boundary are skipped and counted. bounding_box_irregular_y_partial: the x direction of the irregular-polygon box is not proved (the model keeps the rectangle test as the code does). matplotlib Path.contains_points is modelled by crossing number.",
+        technique="Lean 4 proof (index theorems over lists/Rat) + four-representation oracle and exact-slack correspondence",
+        design='6/C12'),
+    'C13': dict(
+        text=("Lean theorems: Noll and ANSI index maps are mutually inverse bijections onto valid (n,m) with the documented ordering, for every index (Nat.sqrt model); for n<=20 (the property's own bound) the radial recursion equals the factorial definition as polynomials (decide +kernel tables lifted to every rational r incl. 0), "
+              "centre values, radial orthonormality on coefficients, azimuthal factor = cos/sin over ℝ, full value clause; cache irrelevance for every request history; old NaN-at-centre and cache-mutation behaviours with proved counterexamples. Tie: exhaustive index-map comparison (2·10^5 quick / 2·10^6 thorough) and exact-value comparison on Cartesian/polar/separated-polar grids."),
+        note=TRUST + " Float sqrt in the index maps is tied only on the compared range; azimuthal orthogonality (classical analysis) is assumed in normalisation_unit; coefficient integration is not linked to a Lebesgue integral.",
+        technique="Lean 4 proof (Nat.sqrt arithmetic, decide +kernel tables, trig identities) + exhaustive-range and exact-value correspondence",
+        design='6/C13'),
+    'C14': dict(
+        text=("Lean theorems: all four ModeBasis constructors denote one matrix; linear_combination = matvec in every storage form; indexing/slicing/concatenation/append/extend/sparse-dense round trip commute with the dense denotation (result kind, values and errors); least squares recovers coefficients of injective maps (ordered fields and ℂ); "
+              "mirror invariant for every history (assign, in-place edits of current or released arrays, flatten, random, new influence functions): the cached mirror returns what the cache-free spec returns. Tie: exact comparison over Gaussian rationals for random matrices/index expressions and actuator histories on the three mirror classes."),
+        note=TRUST + " The executable Gauss–Jordan lstsq is not proved to minimise (the driver re-checks the normal equations exactly); sliceIdx is tied to CPython's slice.indices by ~18k random slices per thorough run.",
+        technique="Lean 4 proof (list/matrix algebra, cache invariant by induction over histories) + exact correspondence",
+        design='6/C14'),
+    'C17': dict(
+        text=("Lean theorems over any field, every history/shape/subsampling: read-out = sum over integrations since the last read-out of power·dt·weight pixel by pixel (empty sum = zero image), read-out resets, returned images are values, noisy detector with noise off = noiseless, binning conserves counts, image on the detector grid. "
+              "Tie: random integrate/read_out histories on NoiselessDetector/NoisyDetector with aliasing re-reads of earlier images."),
+        note=TRUST + " Noise sources are only exercised switched off; value semantics of returned images is checked on the real objects by re-reading them after every later operation.",
+        technique="Lean 4 proof (fold invariants over op histories) + exact correspondence on real detectors",
+        design='6/C17'),
+    'C18': dict(
+        text=("Lean theorems over a linearly ordered field: 1-D and tensor-product linear interpolation (any strictly increasing per-axis knots, any number of axes) and barycentric interpolation on any simplex reproduce affine functions exactly and hit the samples; nearest returns a minimiser of squared distance; bin-sum/mean/weighted-mean conservation, tensor independence; "
+              "supersampled evaluation of affine functions with symmetric dithers is exact. Old axis-order and evaluation-grid defects with proved counterexamples. Tie: exact rational reference for affine fields on regular/separated/unstructured grids."),
+        note=TRUST + " SciPy's Delaunay/find_simplex is assumed to return a containing simplex (open known finding: exactly-on-hull-vertex points get the fill value). Hitting samples in N-D for arbitrary values and the length of dither lists are covered by the correspondence only.",
+        technique="Lean 4 proof (ordered-field algebra) + exact-rational correspondence on real interpolators and binning",
+        design='6/C18'),
 }
 
 NOT_YET = {}
